@@ -26,6 +26,14 @@ CHECKS = {
          "Successful Parse calls are compared leaf by leaf with the documented coercion of the input computed by the reference (math/big numerics, documented bool/time/string tables, WithCoercer, Time.Format layouts, global overrides installed around construction); destinations start from stale sentinels so that untouched / allocated / unnamed-field clauses are observable. exhaustive: true for the options matrix.", "DESIGN.md §4 C03"),
  "C06": ("exploration", "runtime monitor: recover() and worker-death attribution around Parse under hostile Go values x schema kinds x placements, malformed wire inputs through every front end, faulty readers, unusual valid configuration",
          "Hostile dynamic types and shapes are fed to every schema kind at every placement, and malformed JSON/form/query/env input through zjson, zhttp and zenv (including faulty readers); the only oracle is that Parse returns. A fatal error kills the worker and is attributed through the BEGIN log and a solo re-run.", "DESIGN.md §4 C06"),
+ "C10": ("exploration", "runtime monitor: structural invariants of every returned issue map + exact path comparison with the documented key priority, per front end and nesting depth; sanitizer output compared with the issues",
+         "Every returned ZogIssueMap is checked structurally (each issue once under its Path, $root, exactly one $first that is element 0 of its own path list) and the multiset of issue paths is compared with the reference built from the documented tag priority for each front end (Go map, zjson, zhttp JSON, form, query, env) and Validate; Sanitize* output must mirror keys, order and messages.", "DESIGN.md §4 C10"),
+ "C11": ("exploration", "runtime monitor: exhaustive catalogue of built-in issues x languages x modes x placements checked field by field; precedence matrix of test-level / execution / global formatters over random schemas",
+         "Every built-in failure (97 catalogue cells) is triggered under five language settings, alternating inside one process, and its code, type, params, value reference and message (template of the selected language with parameters substituted, no placeholders) are checked; the most-specific-wins rule is checked on random schemas over the 2^3 presence matrix. exhaustive: true for the catalogue.", "DESIGN.md §4 C11"),
+ "C12": ("exploration", "runtime monitor: recording callbacks on every node (arguments, addresses, ctx values, HasErrored, order) compared with reference events; error-return and Preprocess scenarios",
+         "Every node of generated schemas carries recording tests and post-transforms; arguments must be the node's own value (pointer into the destination for struct/slice/custom tests and all post-transforms), the context must hold exactly this call's values, post-transforms run in order, once, never while an issue exists; returned errors / ZogIssues and Preprocess failures are exercised in dedicated scenarios.", "DESIGN.md §4 C12"),
+ "C14": ("exploration", "runtime monitor: relational oracle on the real code, one generated record rendered through six front ends, destinations and normalised issues compared with the Go-map rendering",
+         "Generated records are rendered as Go map, JSON (zjson, zhttp body), form body, query string and environment and parsed with the same schema (also through a top-level Ptr); destinations and issues must agree up to the documented per-source differences.", "DESIGN.md §4 C14"),
 }
 NA_REASON = "check under construction (monitor not yet registered in this commit)"
 checks = []
